@@ -1,9 +1,16 @@
 import LaytheVerif.Model.Verifier
+import LaytheVerif.Model.EffectRows
 import LaytheVerif.Model.Encode
 /-! Line-protocol engine for the bytecode verifier.
 Request: `arity=<n> max_slots=<n> captures=<n> consts=<k1,k2,..>|<instr;instr;...>|<off,depth,handlers ...>`
 (constants: `fun:<captures>:<name>` or anything else; the third field = probe points, may be empty).
-Reply: `ok maxdepth=<n> handlers=<n> probe=<checked>` or `fail pc=<n> instr=<i> depth=<d> handlers=<h> reason=<...>`. -/
+Reply: `ok maxdepth=<n> capacity=<n> handlers=<n> probe=<checked> allreach=<0|1> cover=<Name:occ:h:p,...>` or
+`fail pc=<n> instr=<i> depth=<d> handlers=<h> reason=<...>`.
+`cover`: per variant occurring at an index the certificate reaches: occurrences, h=1 when a reachable `PushHandler`
+follows some occurrence in instruction order (a wrong table row is then visible in the recorded handler depth),
+p=1 when the function's depth peak is strictly later than some occurrence (an under-estimate lowers `max_slots`).
+Request `!effectdiff`: reply `effectdiff <Name:operands:table=<n>:model=<n>> ...` — the sample instructions whose row of
+the regenerated `stack_effect` table differs from the model (`EffectRows.differingRows`); `!variants` lists `Gen.symNames`. -/
 namespace Driver.VerifyEng
 open LaytheVerif.Gen LaytheVerif.Verifier
 
@@ -52,7 +59,55 @@ def reason (c : FunCtx) (code : List Sym) (pc : Nat) (s : St) : String :=
         else "jump-or-raise-target"
       | none => "jump-or-raise-target"
 
+def isPush : Sym → Bool
+  | .PushHandler _ _ => true
+  | _ => false
+
+/-- per index, about the *later* reachable indices: (a `PushHandler` occurs, the largest depth) -/
+def suffixInfo (xs : List (Sym × Option St)) : List (Bool × Nat) :=
+  (xs.foldr (fun (x : Sym × Option St) (acc : List (Bool × Nat) × Bool × Nat) =>
+    let acc' := (acc.2.1, acc.2.2) :: acc.1
+    match x.2 with
+    | some st => (acc', acc.2.1 || isPush x.1, max acc.2.2 st.depth)
+    | none => (acc', acc.2.1, acc.2.2)) ([], false, 0)).1
+
+def isCaptureOperand : Sym → Bool
+  | .CaptureIndex _ => true
+  | _ => false
+
+def isClosure : Sym → Bool
+  | .Closure _ => true
+  | _ => false
+
+def cover (code : List Sym) (cert : Cert) : String :=
+  let xs := code.zip cert
+  let suf := suffixInfo xs
+  let init : Array (Nat × Bool × Bool) := Array.replicate symNames.length (0, false, false)
+  -- state: table, largest depth so far, "the previous entry was a counted Closure or one of its capture operands"
+  let (tab, _, _) := (xs.zip suf).foldl (fun (acc : Array (Nat × Bool × Bool) × Nat × Bool) (y : (Sym × Option St) × (Bool × Nat)) =>
+    let bump (pre : Nat) : Array (Nat × Bool × Bool) :=
+      let k := y.1.1.ctorIdx
+      let old := acc.1[k]!
+      acc.1.set! k (old.1 + 1, old.2.1 || y.2.1, old.2.2 || decide (y.2.2 > pre))
+    match y.1.2 with
+    | none =>
+      -- the capture operands of a reached `Closure` carry no state of their own in the certificate
+      if acc.2.2 && isCaptureOperand y.1.1 then (bump acc.2.1, acc.2.1, true) else (acc.1, acc.2.1, false)
+    | some st =>
+      let pre := max acc.2.1 st.depth
+      (bump pre, pre, isClosure y.1.1)) (init, 0, false)
+  let rows := (List.range symNames.length).filterMap fun k =>
+    let r := tab[k]!
+    if r.1 == 0 then none
+    else some s!"{symNames[k]!}:{r.1}:{if r.2.1 then 1 else 0}:{if r.2.2 then 1 else 0}"
+  ",".intercalate rows
+
 def step (_ : Unit) (line : String) : Unit × String :=
+  if line.trimAscii.toString == "!effectdiff" then
+    ((), "effectdiff " ++ " ".intercalate (differingRows.map showRow))
+  else if line.trimAscii.toString == "!variants" then
+    ((), "variants " ++ " ".intercalate symNames)
+  else
   match line.splitOn "|" with
   | hd :: codeS :: rest =>
     let ws := (hd.trimAscii.toString.splitOn " ").filter (· ≠ "")
@@ -89,7 +144,9 @@ def step (_ : Unit) (line : String) : Unit × String :=
               | none => some s!"{o}:not-a-boundary"
             | _, _, _ => some "bad-point"
           | _ => some "bad-point"
-        if bad.isEmpty then ((), s!"ok maxdepth={maxd} capacity={c.capacity} handlers={nh} probe={pts.length}")
+        -- every instruction is reached (the capture operands of a reached `Closure` have no state of their own)
+        let allreach := (code.zip cert).all fun (x : Sym × Option St) => x.2.isSome || isCaptureOperand x.1
+        if bad.isEmpty then ((), s!"ok maxdepth={maxd} capacity={c.capacity} handlers={nh} probe={pts.length} allreach={if allreach then 1 else 0} cover={cover code cert}")
         else ((), s!"probe-mismatch {" ".intercalate (bad.take 5)}")
       | .conflict pc h w =>
         ((), s!"fail pc={pc} instr={(code[pc]!).toText} kind=join-conflict have:{showSt h} want:{showSt w}")
